@@ -17,7 +17,7 @@ m = {
  "hooks": {
   "guard": "SEXP_USE_VERIF_HOOKS",
   "enable": "make CPPFLAGS=-DSEXP_USE_VERIF_HOOKS=1 (done by vlib/build.py in a scratch copy of /repo's working tree)",
-  "baseline_off_cmd": "cmake --build /repo/_build && ctest --test-dir /repo/_build -j8 --timeout 900",
+  "baseline_off_cmd": "cmake -G Ninja -S /repo -B /repo/_build && cmake --build /repo/_build && ctest --test-dir /repo/_build -j8 --timeout 900",
   "source_commits": hooks_commits,
   "add_only": True,
  },
